@@ -908,8 +908,22 @@ fn prepare_auth_with_history(
 
 fn prepare_new_auth(room: &Room, new_auth: &AuthorisationNode) -> Result<()> {
     let authorisation = new_auth.parse()?;
+    //user admins of a new authorisation can only be defined by a room admin
+    for new_user_admin in &new_auth.user_admin_nodes {
+        if !room.is_admin(
+            &new_user_admin.node.verifying_key,
+            new_user_admin.node.mdate,
+        ) {
+            return Err(Error::InvalidNode(
+                "RoomNode User Administrator is not authorised".to_string(),
+            ));
+        }
+    }
+    //same rule as the local mutation: a user admin of the authorisation or a room admin
     for new_user in &new_auth.user_nodes {
-        if !authorisation.can_admin_users(&new_user.node.verifying_key, new_user.node.mdate) {
+        if !authorisation.can_admin_users(&new_user.node.verifying_key, new_user.node.mdate)
+            && !room.is_admin(&new_user.node.verifying_key, new_user.node.mdate)
+        {
             return Err(Error::InvalidNode(
                 "RoomNode Authorisation new user is not authorised".to_string(),
             ));
